@@ -94,7 +94,8 @@ def subclasses(c):
     return out
 
 # ---- formatter classes reachable from the global list
-fclasses, todo = [], [type(f) for f in gf.FORMATTERS]
+# (+ SequenceFormatter: SequenceNode.print builds an ad-hoc instance of it, reached from print_parent_context in -d)
+fclasses, todo = [], [type(f) for f in gf.FORMATTERS] + [sequences.SequenceFormatter]
 while todo:
     k = todo.pop(0)
     if k in fclasses:
@@ -173,6 +174,39 @@ for root in gf.FORMATTERS:
                 probe[(owner, name, leaf)] = kinds
 probe = [[o, n, l, sorted((k, v[0], v[1]) for k, v in kinds.items())] for (o, n, l), kinds in sorted(probe.items())]
 
+# ---- key positions: a mapping key is printed by the key/value-pair printer, not only by the leaf methods.
+# Every print_KeyValuePairNode / print_KeywordArgument is called on a fresh pair whose key is a sample of every
+# scalar class (value: a plain string); a failure counts against the key position only when the formatter prints
+# the same key on its own without failing (otherwise it is the leaf method's, already in the table above).
+kvp_classes = {'print_KeyValuePairNode': gg.KeyValuePairNode, 'print_KeywordArgument': gast.KeywordArgument}
+keyprobe = {}
+for root in gf.FORMATTERS:
+    for inst in instances(root):
+        k = type(inst)
+        for name, kvp_cls in kvp_classes.items():
+            if not hasattr(inst, name):
+                continue
+            owner = next(c for c in k.__mro__ if name in c.__dict__).__name__
+            if (owner, name) in keyprobe:
+                continue
+            kinds = {}
+            for leaf, vals in SAMPLES.items():
+                for v in vals:
+                    kd = 'key:' + scalar_kind(v)
+                    try:
+                        inst.print(Printer(io.StringIO(), ansi_color=False, quiet=True), mk(leaf, v))
+                    except Exception:
+                        kinds.setdefault(kd, [True, ''])
+                        continue
+                    try:
+                        getattr(inst, name)(Printer(io.StringIO(), ansi_color=False, quiet=True),
+                                            kvp_cls(mk(leaf, v), gg.StringNode('v')))
+                        kinds.setdefault(kd, [True, ''])
+                    except Exception as ex:
+                        kinds[kd] = [False, type(ex).__name__]
+            keyprobe[(owner, name)] = kinds
+probe += [[o, n, '#key', sorted((k, v[0], v[1]) for k, v in kinds.items())] for (o, n), kinds in sorted(keyprobe.items())]
+
 # ---- sources the hand-audited tables are tied to
 main_src = src(gm.main)
 audit = {
@@ -196,7 +230,7 @@ audit = {
                 src(gf.FormatterChecker.__init__)],
  'context': sorted(src(k.__dict__['print_parent_context']) for k in subclasses(gt.TreeNode)
                    if 'print_parent_context' in k.__dict__ and not issubclass(k, gt.EditedTreeNode))
-            + [src(gg.LeafNode.print), src(gg.StringNode.print)],
+            + [src(gg.LeafNode.print), src(gg.StringNode.print), src(sequences.SequenceNode.print)],
  'main': main_src,
 }
 print('@@J ' + json.dumps({'formatters': fmts, 'global': [type(f).__name__ for f in gf.FORMATTERS],
@@ -245,7 +279,7 @@ AUDITED.update({
     'grammar': '40afb0b6292301b7',
     'protocol': '91510f4d9f412846',
     'resolution': '58a2c94611ecc80a',
-    'context': '1f7af1dbfe04707d',
+    'context': '42fbf238966f7e17',
     'main_dispatch': '4224ae09d71267ac',
 })
 
@@ -292,12 +326,25 @@ KINDS = {
     'plist': _NUM + _STR,
     'pickle': ['null', 'bigint', 'str-control', 'bytes'] + _NUM + _STR,
 }
+# scalar classes a MAPPING KEY of each input type can carry (json.build_tree(key, force_leaf_node=True): bool, int,
+# float, str; JSON / JSON5 / XML attribute / plist keys are strings; pickle keys are built by BasicBuilder: any leaf)
+_KSTR = ['key:' + k for k in _STR]
+KEYKINDS = {
+    'json': _KSTR + ['key:str-control'], 'json5': _KSTR + ['key:str-control'],
+    'yaml': _KSTR + ['key:str-control', 'key:bool', 'key:int', 'key:bigint', 'key:float', 'key:inf', 'key:nan'],
+    'csv': [], 'xml': _KSTR, 'html': _KSTR, 'plist': _KSTR,
+    'pickle': _KSTR + ['key:str-control', 'key:bool', 'key:int', 'key:bigint', 'key:float', 'key:inf', 'key:nan',
+                       'key:null', 'key:bytes'],
+}
 # node classes (and their subclasses) whose edit prints its sub-edits one by one through the SAME formatter
 # (AbstractCompoundEdit.print / EditCollection.print); audited against AUDITED['protocol']
 SUBEDIT_NODES = ['DataClassNode', 'PLISTNode']
 # (root formatter class, class) pairs printed by print_parent_context / node.print in the edit digest (-d);
 # audited against AUDITED['context']
-CONTEXT_ENTRIES = [('StringFormatter', 'StringNode'), ('XMLFormatter', 'StringNode')]
+# (a non-leaf mapping key - a pickled tuple / frozenset key - is printed by SequenceNode.print through an ad-hoc
+#  SequenceFormatter('[', ']', ','))
+CONTEXT_ENTRIES = [('StringFormatter', 'StringNode'), ('XMLFormatter', 'StringNode'),
+                   ('SequenceFormatter', 'ListNode'), ('SequenceFormatter', 'MultiSetNode')]
 # print methods that contain a `raise`: the audited condition under which it fires and why it cannot with the
 # grammar above (keyed by owner.method and the hash of the method source)
 AUDITED_RAISES = {
@@ -665,7 +712,8 @@ def gen_dispatch(repo):
             if k not in probed:
                 raise TranslationError(f'scalar class {k} of {it} is not probed')
         rows.append(f'  ({cstr(it)}, ({clist(roots)},\n     ' +
-                    clist(sorted(g.items()) + [('#kinds', KINDS[it])], lambda p: f'({cstr(p[0])}, {clist(p[1])})') + '))')
+                    clist(sorted(g.items()) + [('#kinds', KINDS[it]), ('#keykinds', KEYKINDS[it])],
+                          lambda p: f'({cstr(p[0])}, {clist(p[1])})') + '))')
     L.append(';\n'.join(rows) + '].')
     for c in SUBEDIT_NODES:
         if c not in known:
